@@ -9,7 +9,32 @@ examples/workloads/basic/matmuls.yaml (N_EINSUMS 1..2, M/KN 3..8) with the relax
 through the real mapper; oracle: opt(relaxed) <= opt(base) * (1 + 1e-5), where "no mapping"
 (error 'No pmappings' / empty result) counts as +inf.  Differential between two mapper runs.
 
-Mutation self-test: see the end of this docstring.
+An exception of the mapper other than 'No pmappings' / 'No mappings found' is also read as "no
+mapping" for the relation but is counted in outcome class "...:mapper-error:<Exception>" (see the
+side finding below).
+
+Mutation self-test (scratch copies /tmp/af-mut-*; under the machine load of the session each mutant
+was run through `./check C18 --replay` on configurations of the quick tier, not the whole tier):
+  1. make_tile_shapes.py get_possible_factor_sizes._try_admit `if n > outer_size` -> `if n >= outer_size`
+     (imperfect mode never admits the untiled loop): CAUGHT, relaxation-worsens-optimum/imperfect-factorisation/E
+     on MM1-422/tight, MM1-323/tight and MV2-222/tight.
+  2. pmapping_dataframe.py limit_capacity `<= 1 + tolerance` -> `< 1 + tolerance`: MISSED by design - a
+     validity rule that is uniformly stricter keeps every relaxed mapspace a superset of the base
+     mapspace, so a monotonicity oracle cannot see it (C01 compares with the exact optimum).
+  3. make_tile_shapes.py imperfect enumeration starts at `inner_size + 1` (tile == inner tile lost for
+     the imperfect loop): MISSED - equivalent on the bound (the same LoopTrees are reachable through the
+     inner loop whose tile is fixed to 1).
+  4. make_tile_shapes.py max-fused-loop filter `n <= limit` -> `n == limit`: MISSED - on all MV2 specs of
+     the bound the unfused optimum equals the fused one, max_fused_loops never changes the optimum.
+  5. make_storages.py `may_keep -= must_keep` -> `must_keep -= may_keep`: every run raises (Main keeps
+     nothing) -> all states "both-none": the tier exits 2 (VACUOUS), not 1.
+
+Side finding seen while building this check (NOT a C18 violation; belongs to C01/C03): the mapper
+aborts with accelforge.model.main.InvalidMappingError instead of discarding the template when a
+pmapping template without free tile shapes overflows a memory, although valid mappings exist:
+S.MV2(2,2,2) on S.H2(size=32) with max_fused_loops=0, or S.H2(size=8) with default knobs
+("The mapping uses 64.0 bits of Buf but its size is only 32 bits").  run_model.py:180 raises for
+fully numeric occupancies; make_pmappings_from_templates.py:234 re-raises every exception.
 """
 
 from __future__ import annotations
@@ -164,7 +189,7 @@ def _spec_table(ctx):
     """-> {spec id: ("fam", sid) | ("spatial", sp)}"""
     q = ctx.quick
     tab = {}
-    fam = (["MM1-422/tight", "MV2-222/tight", "MM1-323/tight"] if q else
+    fam = (["MM1-422/tight", "MV2-222/mid-thr", "MM1-323/tight"] if q else
            list(FAM.MEDIUM_SIDS) + ["MM1-323/tight", "MM1-323/mid", "MM2-2222/tight", "MV2-442/mid", "MM1-222/H3",
                                     "MV1-42/H3", "MM1-1222/tight", "MV1-62/tight"])
     for sid in fam:
@@ -202,7 +227,7 @@ def opt_of(res, metric):
     """-> (value, class).  No mapping / mapper error = +inf."""
     if res["error"] is not None:
         e = res["error"]
-        return INF, ("no-pmappings" if "pmapping" in e.lower() or "no mapping" in e.lower() else "error:" + e.split(":")[0])
+        return INF, ("no-pmappings" if ("No pmappings" in e or "No mappings found" in e) else "error:" + e.split(":")[0])
     if not res["rows"]:
         return INF, "empty"
     return min(FAM.row_metric(r, metric) for r in res["rows"]), "ok"
